@@ -344,8 +344,16 @@ def minimise(mod, spec, sig, trace, stalls, budget_s):
     hit = [v for v in r.viol if fam_of(v["sig"]) == fam][0]
     msg = hit["msg"]
     info["sig"] = hit["sig"]
+    events = [_scrub_ev(e) for e in r.sim.log]
+    if len(events) > 500:
+        events = events[:100] + ["... %d events omitted ..." % (len(events) - 500)] + events[-400:]
     return {"spec": best_spec, "trace": trace_l, "stalls": [list(x) for x in best_stalls],
-            "sha": r.sha, "msg": msg, "info": info}
+            "sha": r.sha, "msg": msg, "info": info, "events": events,
+            "outcome": _j(r.outcome), "stacks": r.sim.final_stacks}
+
+
+def _scrub_ev(e):
+    return "#%d t=%.6fs T%d %s" % (e[0], e[1] / 1e9, e[2], " ".join(str(x) for x in e[3:]))[:400]
 
 
 def minimise_main(path_in, path_out, budget_s):
@@ -528,6 +536,9 @@ def check_main(prop, tier, replay=None, search=0):
             json.dump({"property": prop, "spec": res["spec"], "trace": res["trace"], "stalls": res["stalls"],
                        "expect": {"sig": res["info"].get("sig", sig), "sha": res["sha"]}, "message": res["msg"],
                        "minimisation": res["info"], "found_at": {"VERIF_SEED": vseed, "index": v["idx"], "tier": tier},
+                       "outcome": res.get("outcome"), "thread_stacks_at_end": res.get("stacks"),
+                       "history": res.get("events", []),
+                       "history_format": "#<global event sequence> t=<virtual seconds> T<thread id> <event ...>; decisions in 'trace' are [scheduler step, thread id]",
                        "repo_tree": repo_tree_id(),
                        "how_to_replay": "cd /verif && ./check %s --replay %s" % (prop, os.path.relpath(path, VERIF))},
                       f, indent=1)
